@@ -34,6 +34,13 @@ class HarnessError(Exception):
     pass
 
 
+def _light(x):
+    try:
+        return values.light_of(x)
+    except Exception:  # noqa: BLE001
+        return ["?", None]
+
+
 def _is_termination(lt):
     return lt.get("kind") == "UnbindRequest" or (lt.get("kind") == "ExtendedResponse" and lt.get("name") == rfc4511.NOTICE_OID)
 
@@ -333,7 +340,11 @@ class World:
         ev["well_typed"] = well_typed
         if well_typed:
             for x in msgs:
-                se.returned.append(values.canon_msg(x))
+                try:
+                    se.returned.append(values.canon_msg(x))
+                except Exception as e:  # noqa: BLE001 - a returned message whose public fields cannot be read
+                    se.returned.append({"t": "?unreadable", "id": None, "error": "%s: %s" % (type(e).__name__, e)})
+                    ev["unreadable_message"] = "%s: %s" % (type(e).__name__, e)
                 se.returned_objs.append(x)
         if not ev["ok"] and not was_closed:
             se.errored = ev["exc"]
@@ -367,7 +378,7 @@ class World:
             ev["state_sync"] = True
         ev["mst_after"] = se.model.st
         self.note({"op": "deliver", "to": to, "len": len(data), "ok": ev["ok"],
-                   "ret": [values.light_of(x) for x in msgs] if well_typed else None,
+                   "ret": [_light(x) for x in msgs] if well_typed else None,
                    "exc": ev["exc"] and ev["exc"]["type"], "st": ev["st_after"]})
         return ev
 
